@@ -78,12 +78,13 @@ theorem cleanB_cons (last : Bool) (c : Char) (r : Str) :
   · subst hc; cases r <;> rfl
   · simp only [hc, if_false]
 
-/-- what may follow a segment: nothing, or a `/` -/
-def SlashOrEnd (t : Str) : Prop := t = [] ∨ ∃ t', t = '/' :: t'
+/-- what may follow a segment: nothing, a `/`, or a `[` -/
+def SlashOrEnd (t : Str) : Prop := t = [] ∨ ∃ t', t = '/' :: t' ∨ t = '[' :: t'
 
 theorem nameRunLen_slashOrEnd (t : Str) (h : SlashOrEnd t) : nameRunLen t = 0 := by
-  rcases h with h | ⟨t', h⟩
+  rcases h with h | ⟨t', h | h⟩
   · subst h; rfl
+  · subst h; rw [nameRunLen_cons]; simp
   · subst h; rw [nameRunLen_cons]; simp
 
 theorem nameRunLen_clean (last : Bool) : ∀ (n : Nat) (s t : Str), s.length ≤ n → cleanB last s = true →
@@ -156,7 +157,7 @@ def slashJoin (segs : List Str) : Str := segs.flatMap (fun s => '/' :: s)
 theorem slashJoin_slashOrEnd (segs : List Str) : SlashOrEnd (slashJoin segs) := by
   cases segs with
   | nil => left; rfl
-  | cons s r => right; exact ⟨s ++ slashJoin r, by simp [slashJoin]⟩
+  | cons s r => right; exact ⟨s ++ slashJoin r, Or.inl (by simp [slashJoin])⟩
 
 /-- all segments non-empty and clean; only the last may end in a lone backslash -/
 def SegsOK : List Str → Prop
